@@ -147,6 +147,43 @@ def r3_trace_iff_flag(rule, root=None):
             rule.bad("%s|early-return" % label, "%s eval has an early return" % label, A.where(fn, rets[0]))
 
 
+INTERVAL_RS = "fidget-core/src/types/interval.rs"
+
+
+def r_nan_undecided(rule, root=None):
+    """the four interval choice functions decide nothing when either operand holds a NaN: the very first test is
+    `self.has_nan() || rhs.has_nan()` and it yields (NaN, Both).  The native interval clauses make the same
+    test before anything else, so a function that decides first (say, on its left operand alone) records a
+    choice - and reports a trace - where the JIT records `Both`."""
+    from .. import effects as E
+
+    for name in ("min_choice", "max_choice", "and_choice", "or_choice"):
+        fn = A.find_fn(INTERVAL_RS, name, self_ty="Interval", root=root)
+        body = A.value_view(fn["body"])
+        stmts = body.get("stmts") or []
+        first = A.strip(A.stmt_expr(stmts[0])) if stmts and A.stmt_expr(stmts[0]) is not None else None
+        ok = False
+        why = "its first statement is not a test"
+        if first is not None and first.get("k") == "If":
+            c = E.canon(first["cond"])
+            either = "(rhs.has_nan()||self.has_nan())"
+            neither = "(!rhs.has_nan()&&!self.has_nan())"
+            br = first["then"] if c == either else (first.get("else") if c == neither else None)
+            if br is None:
+                why = "its first test is `%s`, not `self.has_nan() || rhs.has_nan()`" % A.unparse(first["cond"])
+            else:
+                vals = [t_ for t_ in A.find(br, "Tuple") if len(t_["elems"]) == 2]
+                tl = [t_ for t_ in vals if E.canon(t_["elems"][0]) in ("f32::NAN", "NAN", "f32::NAN.into()") and E.canon(t_["elems"][1]) == "Choice::Both"]
+                if len(vals) == 1 and len(tl) == 1:
+                    ok = True
+                else:
+                    why = "the NaN branch does not yield (NaN, Choice::Both)"
+        if ok:
+            rule.ok("Interval::%s: a NaN in either operand is (NaN, Both) before anything is decided" % name, file=INTERVAL_RS, line=fn["ln"])
+        else:
+            rule.bad("nan-first|%s" % name, "Interval::%s must answer (NaN, Choice::Both) for a NaN in either operand before it decides anything (%s): the native interval clause tests both operands first, so the interpreter would record a decided choice where the JIT records Both" % (name, why), A.where(fn))
+
+
 def run(ctx):
     r = ctx.rule("R1", "interpreter tracing loops record one choice per choice op and set the flag from it", 2 * 54 + 2)
     ctx.guarded(r, r1_choice_recording)
@@ -157,6 +194,8 @@ def run(ctx):
         ctx.guarded(r, AC.check_choice_protocol, kind)
     r = ctx.rule("R2s", "native min/max branch on strict comparisons like the interpreter's choice functions", 14)
     ctx.guarded(r, AC.check_strictness)
+    r = ctx.rule("R2n", "interval choice functions leave a NaN operand undecided before anything else, as the native clauses do", 4)
+    ctx.guarded(r, r_nan_undecided)
     from .. import asmcopy as AK
 
     r = ctx.rule("R2e", "the tracing assemblers' call helpers restore the choice pointer (rsi) and the flag pointer (rdx) with every live register", 4)
